@@ -1,49 +1,51 @@
 """T1: bech32 data tables of the working tree -> lean/BtcVerif/Generated/Bech32.lean
 
-Both tables are read BEHAVIOURALLY from the public functions, so that a refactoring that moves or renames the
-literals (hoisting the generator out of `bech32_polymod`, renaming CHARSET) does not break the tie, while any
-change of a value does:
+Both tables are read BEHAVIOURALLY and only through `bitcoin.segwit_addr.encode` — the property's own observation
+point — so that a refactoring that moves, renames or inlines the literals or the internal BIP173 helper functions
+(`bech32_polymod`, `bech32_create_checksum`, `bech32_encode`, CHARSET, the `generator` list) does not break the
+tie, while any change of a table VALUE does:
 
-* generator: `bech32_polymod` is the affine map  s ↦ T(s) xor v  iterated from s = 1, with T linear over GF(2)
-  and T(2^(25+i)) = generator[i].  Feeding [2^i, 0, 0, 0, 0, 0, 0] reaches the state T(GEN[0]) xor GEN[i] and
-  feeding seven zeros reaches T(GEN[0])  (for i = 0: [1,0,…] gives T(GEN[0]) xor GEN[0], and six zeros give GEN[0]
-  directly), hence  GEN[i] = polymod([2^i]+[0]*6) xor polymod([0]*7).
-* charset: character number v is what `bech32_encode` writes for the data value v (first data character).
+* charset: the 20-byte program whose 5-bit groups are 0,1,…,31 is encoded under the prefix "a" with version 0;
+  data character number 1+v of the result is the character of the value v.
+* generator: the checksum is an affine function of the data values; changing the LAST 5-bit group of the program
+  (the one followed by exactly the six checksum positions) by e changes the 30-bit checksum by
+  T⁶(e) = xor of generator[i] over the bits i of e  (T = one polymod step; T⁵(e) = e·2²⁵ has top = e, rest 0).
+  Hence generator[i] = checksum(last group = 2^i) xor checksum(last group = 0).
 
-If a function is missing or does not answer integers/strings of the expected shape this raises and the
-framework reports a broken tie (then searches for a failing input).
+If `encode` is missing or does not answer strings of the BIP173 shape this raises and the framework reports a
+broken tie (then searches for a failing input).
 """
 
 
-def _generator(SA):
-    P = SA.bech32_polymod
-    base = P([0] * 7)
-    gen = [P([1 << i] + [0] * 6) ^ base for i in range(5)]
-    if P([0] * 6) != gen[0]:
-        raise LookupError('bech32_polymod is not of the BIP173 shape (six zeros must reach generator[0])')
-    if not all(isinstance(g, int) and not isinstance(g, bool) and 0 <= g < (1 << 30) for g in gen):
-        raise LookupError('bech32_polymod does not produce 30-bit integers')
-    return gen
-
-
-def _charset(SA):
-    out = []
-    for v in range(32):
-        s = SA.bech32_encode('a', [v])
-        if not isinstance(s, str) or len(s) != 2 + 1 + 6 or s[:2] != 'a1':
-            raise LookupError('bech32_encode("a", [%d]) does not have the BIP173 shape: %r' % (v, s))
-        out.append(s[2])
-    return ''.join(out)
+def _addr(SA, last):
+    prog = int(''.join('{:05b}'.format(v) for v in range(31)) + '{:05b}'.format(last), 2).to_bytes(20, 'big')
+    s = SA.encode('a', 0, prog)
+    if not isinstance(s, str) or len(s) != 2 + 1 + 32 + 6 or s[:2] != 'a1':
+        raise LookupError('encode("a", 0, <20 bytes>) does not have the BIP173 shape: %r' % (s,))
+    return s
 
 
 def dump(repo):
     import bitcoin.segwit_addr as SA
-    cs = _charset(SA)
-    gen = _generator(SA)
+    pang = _addr(SA, 31)                       # groups 0..31
+    cs = pang[3:3 + 32]
+    if len(set(cs)) != 32:
+        raise LookupError('the 32 data values do not map to 32 distinct characters: %r' % cs)
+    val = {c: i for i, c in enumerate(cs)}
+
+    def cks(s):
+        n = 0
+        for c in s[-6:]:
+            if c not in val:
+                raise LookupError('checksum character %r is not a data character' % c)
+            n = n * 32 + val[c]
+        return n
+    base = cks(_addr(SA, 0))
+    gen = [cks(_addr(SA, 1 << i)) ^ base for i in range(5)]
     return ('-- GENERATED from the working tree by harness/tables/bech32.py on every run; do not edit.\n'
             'namespace BtcVerif.Generated.Bech32\n\n'
-            '/-- the character `bech32_encode` writes for each data value 0..31 (code points) -/\n'
+            '/-- the character `encode` writes for each data value 0..31 (code points) -/\n'
             'def charset : List Char := [' + ', '.join('Char.ofNat %d' % ord(c) for c in cs) + ']\n\n'
-            '/-- the generator constants, read off `bech32_polymod` by linear algebra (see harness/tables/bech32.py) -/\n'
+            '/-- the generator constants, read off the checksums `encode` appends (see harness/tables/bech32.py) -/\n'
             'def generator : List Nat := [' + ', '.join(str(g) for g in gen) + ']\n\n'
             'end BtcVerif.Generated.Bech32\n')
